@@ -219,7 +219,14 @@ class Run:
                     return [k], "skip"
                 self.mergectr += 1
                 mf = RE.sidecar(rec.ih5_files[-1] if RE.is_committed_on_disk(rec.ih5_files[-1]) else rec.ih5_files[-2])
-                s = RE.IH5MFRecord.create_stub(self.d / "other" / f"stub{self.mergectr}", mf)
+                # (sometimes onto the name of the record itself or of an earlier merge result: must be refused without effect)
+                r = rng.random()
+                tgt = self.d / "rec" if r < 0.2 else self.d / "other" / "m1" if r < 0.35 else self.d / "other" / f"stub{self.mergectr}"
+                s = RE.IH5MFRecord.create_stub(tgt, mf)
+                for p in s.ih5_files:
+                    self.ledger.add(p)
+                    if RE.sidecar(p).exists():
+                        self.ledger.add(RE.sidecar(p))
                 s.close()
             return item, "ok"
         except Exception as e:
